@@ -260,6 +260,10 @@ def run_session(session, path, seam, ctx, prop):
         elif item == "natoms":
             f.natoms = len(session["records"])
     recs = [tuple(r) if session.get("tuple_records") else list(r) for r in session["records"]]
+    if len(session["records"]) % 4 == 1:
+        # numbers as numpy scalars (what records taken from arrays look like)
+        recs = [type(r)([np.int64(r[0]), r[1], r[2], np.int64(r[3])] + [np.float64(x) for x in r[4:]]) for r in recs]
+        ctx.probe("numpy_scalars_in_records")
     if session.get("chunks") and sum(c[0] for c in session["chunks"]) == len(recs):
         pos = 0
         for size, how in session["chunks"]:
